@@ -89,14 +89,14 @@ class DiagCodedType:
 
             str_encoding = get_string_encoding(self.base_data_type, self.base_type_encoding,
                                                self.is_highlow_byte_order)
-            byte_length = len(bytes(internal_value, str_encoding or "utf-8"))
+            byte_length = len(internal_value.encode(str_encoding or "utf-8", errors="replace"))
         elif self.base_data_type == DataType.A_UNICODE2STRING:
             if not isinstance(internal_value, str):
                 odxraise()
 
             str_encoding = get_string_encoding(self.base_data_type, self.base_type_encoding,
                                                self.is_highlow_byte_order)
-            byte_length = len(bytes(internal_value, str_encoding or "utf-16-le"))
+            byte_length = len(internal_value.encode(str_encoding or "utf-16-le", errors="replace"))
             odxassert(
                 byte_length % 2 == 0, f"The bit length of A_UNICODE2STRING must"
                 f" be a multiple of 16 but is {8*byte_length}")
